@@ -113,12 +113,13 @@ func ruleEntryPresence(c *Ctx) {
 			return false
 		}
 		switch cal.Name() {
-		case "readTagAndLength":
-			return ex.Index == 2
 		case "ReadTag":
 			return ex.Index == 1
+		default:
+			// a helper that hands the tag's index on (readTagAndLength): whichever of its results is
+			// ReadTag's index on its success returns
+			return ex.Index == tagIndexResult(cal)
 		}
-		return false
 	}
 	var testsIndex func(v ssa.Value, depth int) bool
 	testsIndex = func(v ssa.Value, depth int) bool {
@@ -196,6 +197,58 @@ func ruleEntryPresence(c *Ctx) {
 		c.Oblige("X.entry.presence", false, f.Pos(), name, "reset of the value slot to the nil value", "no typedmemmove(…, val, c.vZero) found: the rule no longer sees the code it was written for", nil)
 	}
 	c.Floor("X.entry.presence", 1)
+}
+
+// tagIndexResult: the position among f's results that carries the index read by ReadTag (-1: none).
+func tagIndexResult(f *ssa.Function) int {
+	if f == nil || len(f.Blocks) == 0 {
+		return -1
+	}
+	var isIdx func(v ssa.Value, depth int) bool
+	isIdx = func(v ssa.Value, depth int) bool {
+		if depth > 6 {
+			return false
+		}
+		switch x := v.(type) {
+		case *ssa.Extract:
+			if call, ok := x.Tuple.(*ssa.Call); ok {
+				if cal := call.Common().StaticCallee(); cal != nil && cal.Name() == "ReadTag" && x.Index == 1 {
+					return true
+				}
+			}
+		case *ssa.Phi:
+			for _, e := range x.Edges {
+				if isIdx(e, depth+1) {
+					return true
+				}
+			}
+		case *ssa.UnOp:
+			// named result spilled to a local
+			if al, ok := x.X.(*ssa.Alloc); ok {
+				for _, r := range *al.Referrers() {
+					if st, ok := r.(*ssa.Store); ok && st.Addr == ssa.Value(al) && isIdx(st.Val, depth+1) {
+						return true
+					}
+				}
+			}
+		case *ssa.Convert:
+			return isIdx(x.X, depth+1)
+		}
+		return false
+	}
+	found := -1
+	for _, b := range f.Blocks {
+		ret, ok := b.Instrs[len(b.Instrs)-1].(*ssa.Return)
+		if !ok {
+			continue
+		}
+		for j, r := range ret.Results {
+			if isIdx(r, 0) {
+				found = j
+			}
+		}
+	}
+	return found
 }
 
 // ---------------------------------------------------------------------------
